@@ -365,6 +365,21 @@ enum Case {
     FloatValue(f64, usize),
     FloatText(String),
     Word(String),
+    /// prefix text, an escape sequence of another language's syntax, suffix text
+    ForeignEscape(String, String, String),
+}
+
+/// "any other escape ... is an error": a literal containing an escape sequence that other
+/// languages define (`\n`, `\x41`, `\u{D800}`, ...) is rejected, alone and next to operators.
+fn check_foreign_escape(prefix: &str, esc: &str, suffix: &str, l: &mut Local) -> Outcome {
+    let pq = quote(prefix);
+    let sq = quote(suffix);
+    let lit = format!("{}{}{}", &pq[..pq.len() - 1], esc, &sq[1..]);
+    l.label("negative: escape sequence of another language");
+    l.nontrivial_key(&format!("esc|{}", lit));
+    expect_build_error("string-foreign-escape", &lit, "IllegalEscapeSequence")?;
+    expect_build_error("string-foreign-escape", &format!("len({})+1", lit), "IllegalEscapeSequence")?;
+    expect_build_error("string-foreign-escape", &format!("a={};a", lit), "IllegalEscapeSequence")
 }
 
 fn arb_case() -> BoxedStrategy<Case> {
@@ -378,6 +393,8 @@ fn arb_case() -> BoxedStrategy<Case> {
         3 => (prop_oneof![3 => nonneg_float, 1 => pow10], 0usize..20).prop_map(|(x, k)| Case::FloatValue(x, k)),
         2 => arb_float_text().prop_map(Case::FloatText),
         2 => arb_word().prop_map(Case::Word),
+        1 => (gen::arb_text(), gen::arb_foreign_escape(), gen::arb_text()).prop_map(|(a, e, b)| Case::ForeignEscape(a, e, b)),
+        1 => gen::arb_foreign_escape().prop_map(|e| Case::ForeignEscape(String::new(), e, String::new())),
     ]
     .boxed()
 }
@@ -394,6 +411,7 @@ fn check_case(c: &Case, l: &mut Local) -> Outcome {
         },
         Case::FloatText(t) => check_float_text(t, None, l),
         Case::Word(w) => check_word(w, l),
+        Case::ForeignEscape(a, e, b) => check_foreign_escape(a, e, b, l),
     }
 }
 
@@ -484,6 +502,7 @@ pub fn run(rep: &Report) {
             Case::FloatValue(x, k) => json!({"float": format!("{:?}", x), "fixed_digits": k}),
             Case::FloatText(t) => json!({"float_text": t}),
             Case::Word(w) => json!({"word": w}),
+            Case::ForeignEscape(a, e, b) => json!({"foreign_escape": e, "prefix": quote(a), "suffix": quote(b)}),
         });
         check_case(c, l)
     });
